@@ -21,12 +21,58 @@ for i in 0 1 2 3; do
   if ! wait ${pids[$i]}; then echo "HARNESS-ERROR: transcript build failed for tags '${tags[$i]}'" >&2; cat "$work/err.$i" >&2; exit 2; fi
 done
 NS=4
+# every shard prints one CHUNK line per chunk of cases (a chunk takes well under a second): a shard whose
+# output has not grown for STALL seconds is hung inside a library call and is reported as such
+STALL=${VERIF_TRANSCRIPT_STALL:-300}
+declare -A spid slast ssize
 for i in 0 1 2 3; do
   for s in $(seq 0 $((NS-1))); do
-    ( "$work/bin.$i" transcript --shard $s/$NS > "$work/out.$i.$s" 2> "$work/rerr.$i.$s" || echo "EXIT $?" >> "$work/out.$i.$s" ) &
+    ( exec "$work/bin.$i" transcript --shard $s/$NS > "$work/out.$i.$s" 2> "$work/rerr.$i.$s" ) &
+    spid[$i.$s]=$!; slast[$i.$s]=$(date +%s); ssize[$i.$s]=0
   done
 done
-wait
+hung=""
+while :; do
+  alive=0
+  for k in "${!spid[@]}"; do
+    pid=${spid[$k]}
+    [ -z "$pid" ] && continue
+    if kill -0 "$pid" 2>/dev/null; then
+      alive=1
+      sz=$(stat -c %s "$work/out.$k" 2>/dev/null || echo 0)
+      now=$(date +%s)
+      if [ "$sz" != "${ssize[$k]}" ]; then ssize[$k]=$sz; slast[$k]=$now
+      elif [ $((now - ${slast[$k]})) -gt "$STALL" ]; then kill -9 "$pid" 2>/dev/null; hung="$hung $k"; spid[$k]=""; fi
+    else
+      wait "$pid"; erc=$?
+      [ $erc -ne 0 ] && echo "EXIT $erc" >> "$work/out.$k"
+      spid[$k]=""
+    fi
+  done
+  [ $alive = 0 ] && break
+  sleep 2
+done
+if [ -n "$hung" ]; then
+  mkdir -p "$here/replays"
+  for k in $hung; do
+    i=${k%%.*}
+    rp="$here/replays/C07-transcript-${names[$i]}-hang.json"
+    lastc=$(grep '^CHUNK' "$work/out.$k" | tail -1 | awk '{print $2}')
+    python3 - "$rp" "${names[$i]}" "${lastc:--1}" "$k" "$STALL" <<'PY'
+import json,sys
+json.dump({"property":"C07","kind":"transcript-nontermination","tags":sys.argv[2],"last_completed_chunk":int(sys.argv[3]),"shard":sys.argv[4],
+ "detail":"the public-API enumeration under this build printed no further chunk for %s s: a library call does not terminate"%sys.argv[5],
+ "replay_cmd":"scripts/transcripts.sh /tmp/x.json"},open(sys.argv[1],"w"),indent=1)
+PY
+    echo "VIOLATION property=C07 replay=$rp"
+    echo "  build '${names[$i]}': the enumeration stopped making progress after chunk ${lastc:-none} (no output for $STALL s): a library call does not terminate"
+  done
+  python3 - "$summary" "$hung" <<'PY'
+import json,sys
+json.dump({"tag_sets":["default","decimal_pure_go","math_big_pure_go","decimal_pure_go+math_big_pure_go"],"identical":False,"hung_shards":sys.argv[2].split()},open(sys.argv[1],"w"))
+PY
+  exit 1
+fi
 for i in 0 1 2 3; do
   cat "$work"/out.$i.* | sort -k2 -n > "$work/all.$i"
   if grep -q '^EXIT' "$work/all.$i" || ! grep -q '^CHUNK' "$work/all.$i"; then
